@@ -25,7 +25,8 @@ META = {
              "C06_msgpack_json_msgpack_with_floats, no premise); idempotence of JSON -> JSON is proved for EVERY input text, not only "
              "for the writer's own output (C06_json_to_json_idempotent_for_every_input, C06_json_to_json_keeps_the_events: whatever the "
              "reader model reads is the event list of values the writer model can write, so the output is a fixed point and reads back "
-             "to the same events); and the "
+             "to the same events), and likewise MessagePack -> MessagePack for EVERY byte string the reader loop translates, whatever widths its "
+             "integers and lengths were spelled in (C06_msgpack_to_msgpack_idempotent_for_every_input); and the "
              "round-trip clause is proved for the pair MessagePack/JSON: MessagePack->JSON->MessagePack reproduces what "
              "MessagePack->MessagePack writes, for every stream of values JSON can carry, and in the other direction, with no "
              "premise at all, JSON->MessagePack->JSON reproduces what JSON->JSON writes (C06_json_msgpack_json; the "
